@@ -3,6 +3,7 @@ import SJ.Model.ReadSlice
 import SJ.Model.ReadIo
 import SJ.Spec.Canon
 import SJ.Spec.Str
+import SJ.Spec.Wtf8
 /-!
 Driver handlers for the two real string scanners of `src/read.rs` (`SJ.Model.ReadSlice`, `SJ.Model.ReadIo`,
 `harness/src/readers.rs`, `docs/READERS-NOTES.md`).
@@ -156,6 +157,31 @@ def judgeIgn (srcName : String) (bs : Bytes) (start : Nat) (o : String) : List S
   | none, "OK" :: _ => [s!"C05 {srcName}: ignore_str accepts although no string literal of the grammar starts at {start}"]
   | none, _ => []
 
+/-- the BYTES clause of C05 (`c05_bytes_target_total` / `c05_bytes_target_readers`) on one observation of `parse_str_raw`:
+    `Spec.Wtf8.lex` of `bs[start..]` gives items up to a closing quote → the call returns `Spec.Wtf8.decodeBytes items` and
+    stops just past the quote; an unknown escape / a `\u` group that is not four hex digits → `InvalidEscape` with the reader
+    just past the offending byte; input exhausted → `EofWhileParsingString` at the end. A bare control character is a raw
+    item here, as in the code (the statement's "the same decoding applies" would reject it: finding
+    `C05-bytes-control-char-accepted`, reported by op `bytesctl`, not here). -/
+def judgeRaw (srcName : String) (bs : Bytes) (start : Nat) (o : String) : List String :=
+  if o == "-" then [] else
+  if o == "PANIC" then [s!"C14 {srcName}: parse_str_raw panics"] else
+  let escMsg := hexOfBytes (Gen.message .InvalidEscape)
+  let eofMsg := hexOfBytes (Gen.message .EofWhileParsingString)
+  match Spec.Wtf8.lex (bs.drop start), o.splitOn ":" with
+  | .ok items _, ["OK", hb, _, offs] =>
+    let want := Spec.Wtf8.decodeBytes items
+    let e := start + (items.flatMap Spec.Grammar.StrItem.bytes).length + 1
+    (if hb == hexField want then [] else [s!"C05 {srcName}: bytes target: decoded bytes differ from the WTF-8 decoding {hexField want}"]) ++
+    (if offs == toString e then [] else [s!"C05 {srcName}: bytes target: the literal ends at {e}, reader left at {offs}"])
+  | .ok items _, _ => [s!"C05 {srcName}: bytes target: a well-formed literal (decoding {hexField (Spec.Wtf8.decodeBytes items)}) is rejected: {o}"]
+  | .badEscape n, "E" :: m :: _ :: _ :: _ :: offs :: [] =>
+    if m == escMsg && offs == toString (start + n) then [] else [s!"C05 {srcName}: bytes target: expected InvalidEscape with the reader at {start + n}: {o}"]
+  | .badEscape n, _ => [s!"C05 {srcName}: bytes target: expected InvalidEscape with the reader at {start + n}: {o}"]
+  | .eof, "E" :: m :: "eof" :: _ =>
+    if m == eofMsg then [] else [s!"C05 {srcName}: bytes target: input ends inside the literal but the error is not EofWhileParsingString: {o}"]
+  | .eof, _ => [s!"C05 {srcName}: bytes target: input ends inside the literal but the call does not report Eof: {o}"]
+
 def judgeHex (srcName : String) (bs : Bytes) (start : Nat) (o : String) : List String :=
   if o == "-" then [] else
   let rest := bs.drop start
@@ -184,7 +210,8 @@ def rd : Handler := fun args impl =>
           (if f == "S" then
             judgeStr "str" false bs start s ++ judgeStr "slice" true bs start b ++ judgeStr "reader" true bs start r ++
             judgeBorrowed "str" bs start s ++ judgeBorrowed "slice" bs start b
-           else if f == "R" then judgeBorrowed "str" bs start s ++ judgeBorrowed "slice" bs start b
+           else if f == "R" then judgeBorrowed "str" bs start s ++ judgeBorrowed "slice" bs start b ++
+            judgeRaw "str" bs start s ++ judgeRaw "slice" bs start b ++ judgeRaw "reader" bs start r
            else if f == "I" then judgeIgn "str" bs start s ++ judgeIgn "slice" bs start b ++ judgeIgn "reader" bs start r
            else judgeHex "str" bs start s ++ judgeHex "slice" bs start b ++ judgeHex "reader" bs start r)
         | _ => ["C09 malformed observation"]
